@@ -204,6 +204,15 @@ func execWorldCase(c *Sx, env *execEnv) (*Sx, []Violation) {
 			} else if unfocused != nil && unfocused.Head() == "err" && r.String() != unfocused.String() {
 				viols = append(viols, Violation{Prop: "C16", Kind: "focus-changes-error", Detail: "unfocused " + unfocused.String() + " focused " + r.String(), Case: c.String()})
 			}
+		case "listx":
+			if len(q.L) < 2 {
+				out.Add(At("bad-query"))
+				continue
+			}
+			r, v := runListX(dir, undash(q.L[1].A), env, c.String())
+			out.Add(r)
+			viols = append(viols, v...)
+			noteWorldNontrivial(w, r, env)
 		case "evalall":
 			r, v := evalAll(dir, w, env, c.String())
 			out.Add(r)
